@@ -488,6 +488,14 @@ def decl_route(ctx, bad_rate):
                 if (g, "function.fun%d" % i) not in exp and g != "f":
                     # (an int(int) function needs no Fortran wrapper of its own: no f block is emitted unless the declaration forces one)
                     exp[(g, "function.fun%d" % i)] = (body, kinds)
+    # classes without members whose wrapper files exist ONLY because the user supplies code for one block of theirs: the file is
+    # written and carries the block
+    for cname, blk in (("EmptyA", "CXX_definitions"), ("EmptyB", "C_definitions")):
+        body, kinds = make_body(ctx.rng, 700 + len(cname), 0.0)
+        body = body or ["int user_only_%s = 1;" % cname]
+        decls.append({"decl": "class %s" % cname})
+        comp.setdefault("c", {}).setdefault("class", {}).setdefault(cname, {})[blk] = body
+        exp[("c", "class.%s.%s" % (cname, blk))] = (body, kinds)
     if comp:
         y["splicer_code"] = comp
     yp = os.path.join(base, "decsp.yaml")
